@@ -763,6 +763,28 @@ func JudgeHelloFidelity(plan *SessionPlan, obs *SessionObs, out rt.Outcome) []Vi
 		err, pan = guardedErr(func() error { return t.Validate(un) })
 		return err == nil && pan == "", pan
 	}
+	// boundary probes: for every bounded scalar of every step's root object, inputs just inside and just
+	// outside the bound, evaluated on both copies (never sent over the wire)
+	for si := range plan.Plugin.Steps {
+		sr := &plan.Plugin.Steps[si]
+		st, ok := steps[sr.ID]
+		pst, pok := ref.StepsValue[sr.ID]
+		if !ok || !pok {
+			continue
+		}
+		for _, probe := range boundaryProbes(&sr.Input) {
+			n, err := Norm(probe)
+			if err != nil {
+				continue
+			}
+			ea, p1 := accepts(st.Input(), n)
+			pa, p2 := accepts(pst.Input(), n)
+			if p1 == "" && p2 == "" && ea != pa {
+				add("mismatch", "input-verdict-differs", fmt.Sprintf("step %s boundary probe %s: engine copy accepts=%v, plugin copy accepts=%v", sr.ID, short(n), ea, pa))
+				break
+			}
+		}
+	}
 	for ci, calls := range plan.Callers {
 		for i := range calls {
 			call := &calls[i]
@@ -823,3 +845,74 @@ func JudgeHelloFidelity(plan *SessionPlan, obs *SessionObs, out rt.Outcome) []Vi
 	}
 	return vs
 }
+
+// boundaryProbes builds, from a deterministic base value of the scope's root object, one input per bound of
+// every bounded int / float / string / list property of the root: the value just outside the bound.
+func boundaryProbes(sr *ScopeRecipe) []map[string]any {
+	root := sr.object(sr.Root)
+	if root == nil {
+		return nil
+	}
+	base := func() map[string]any {
+		vg := &ValGen{S: zeroSrc{}, Scope: sr}
+		return vg.Object(sr.Root, map[string]any{"nonce": "probe"})
+	}
+	var out []map[string]any
+	for i := range root.Props {
+		p := &root.Props[i]
+		if p.Disabled {
+			continue
+		}
+		set := func(v any) {
+			b := base()
+			b[p.Name] = v
+			out = append(out, b)
+		}
+		switch p.T.Kind {
+		case "int":
+			if p.T.Min != nil {
+				set(*p.T.Min - 1)
+				set(*p.T.Min)
+			}
+			if p.T.Max != nil {
+				set(*p.T.Max + 1)
+				set(*p.T.Max)
+			}
+			if p.T.Min == nil {
+				set(int64(-7))
+			}
+		case "float":
+			if p.T.FMin != nil {
+				set(*p.T.FMin - 0.5)
+				set(*p.T.FMin)
+			}
+			if p.T.FMax != nil {
+				set(*p.T.FMax + 0.5)
+			}
+		case "string":
+			if p.T.Min != nil && *p.T.Min > 0 {
+				set(strings.Repeat("x", int(*p.T.Min)-1))
+			}
+			if p.T.Max != nil {
+				set(strings.Repeat("x", int(*p.T.Max)+1))
+			}
+			if p.T.Min != nil || p.T.Max != nil {
+				set("")
+			}
+		case "list":
+			if p.T.Min != nil && *p.T.Min > 0 {
+				set([]any{})
+			}
+		case "enum_s":
+			set("not-in-enum")
+		case "enum_i":
+			set(int64(-12345))
+		}
+	}
+	return out
+}
+
+// zeroSrc always chooses the first alternative (the generators' simplest value).
+type zeroSrc struct{}
+
+func (zeroSrc) Choose(string, int) int { return 0 }
